@@ -185,14 +185,25 @@ fn translate_head(
             context,
         ),
         SExp::Atom(l, v) => match prim_map.get(v) {
-            None => translate_head(
-                allocator,
-                runner,
-                prim_map,
-                l.clone(),
-                Rc::new(SExp::Integer(l.clone(), number_from_u8(v))),
-                context,
-            ),
+            None => {
+                let as_int = number_from_u8(v);
+                if u8_from_number(as_int.clone()) != *v {
+                    // Bytes that are not the minimal spelling of a number (0x0002)
+                    // are not an opcode to the consensus evaluator.
+                    return Err(RunFailure::RunErr(
+                        l.clone(),
+                        format!("unimplemented operator {sexp}"),
+                    ));
+                }
+                translate_head(
+                    allocator,
+                    runner,
+                    prim_map,
+                    l.clone(),
+                    Rc::new(SExp::Integer(l.clone(), as_int)),
+                    context,
+                )
+            }
             Some(v) => Ok(Rc::new(v.with_loc(l.clone()))),
         },
         // A number is an opcode already.  (Looking its bytes up in the table of
